@@ -179,6 +179,8 @@ def ref_wells(x, config):
         return ref_wells(x["$a"], config)
     if isinstance(x, dict) and "$af" in x:
         return ref_wells(x["$af"], config)
+    if isinstance(x, dict) and "$tuple" in x:
+        return list(x["$tuple"])
     return x
 
 
@@ -192,6 +194,8 @@ def ref_vols(x):
             return float.fromhex(x["$hex"])
         if "$npf" in x:
             return float(x["$npf"])
+        if "$npi" in x:
+            return int(x["$npi"])
         if "$tuple" in x:
             return [ref_vols(v) for v in x["$tuple"]]
     if isinstance(x, list):
@@ -208,28 +212,43 @@ def fhex(v):
 
 
 # ------------------------------------------------------------------ execution
+def pooled(x, W):
+    """Decode an argument; list/array-valued arguments are decoded once per world and the *same object* is handed
+    to every later call that names the same argument - like a user who keeps a list of wells or volumes in a
+    variable.  A call that modifies what it was handed therefore changes the input of the next one."""
+    if not isinstance(x, (list, dict)) or W is None:
+        return dec(x, W)
+    pool = W.setdefault("_argpool", {})
+    import json
+
+    key = json.dumps(x, sort_keys=True)
+    if key not in pool:
+        pool[key] = dec(x, W)
+    return pool[key]
+
+
 def exec_event(W, ev):
     """Apply one event to the real objects.  Returns (outcome, exception or None)."""
     op = ev[0]
     try:
         if op == "add":
             _, lw, wells, vols, kw = ev
-            W["lw"][lw].add(dec(wells, W), dec(vols, W), **dec(kw, W))
+            W["lw"][lw].add(pooled(wells, W), pooled(vols, W), **dec(kw, W))
         elif op == "remove":
             _, lw, wells, vols, kw = ev
-            W["lw"][lw].remove(dec(wells, W), dec(vols, W), **dec(kw, W))
+            W["lw"][lw].remove(pooled(wells, W), pooled(vols, W), **dec(kw, W))
         elif op in ("aspirate", "dispense"):
             _, wl, lw, wells, vols, kw = ev
-            getattr(W["wl"][wl], op)(W["lw"][lw], dec(wells, W), dec(vols, W), **dec(kw, W))
+            getattr(W["wl"][wl], op)(W["lw"][lw], pooled(wells, W), pooled(vols, W), **dec(kw, W))
         elif op == "transfer":
             _, wl, src, sw, dst, dw, vols, kw = ev
-            W["wl"][wl].transfer(W["lw"][src], dec(sw, W), W["lw"][dst], dec(dw, W), dec(vols, W), **dec(kw, W))
+            W["wl"][wl].transfer(W["lw"][src], pooled(sw, W), W["lw"][dst], pooled(dw, W), pooled(vols, W), **dec(kw, W))
         elif op == "distribute":
             _, wl, src, col, dst, dw, kw = ev
-            W["wl"][wl].distribute(W["lw"][src], col, W["lw"][dst], dec(dw, W), **dec(kw, W))
+            W["wl"][wl].distribute(W["lw"][src], dec(col, W), W["lw"][dst], pooled(dw, W), **dec(kw, W))
         elif op in ("evo_aspirate", "evo_dispense"):
             _, wl, lw, wells, pos, tips, vols, lc, kw = ev
-            getattr(W["wl"][wl], op)(W["lw"][lw], dec(wells, W), dec(pos, W), dec(tips, W), dec(vols, W), lc, **dec(kw, W))
+            getattr(W["wl"][wl], op)(W["lw"][lw], pooled(wells, W), dec(pos, W), pooled(tips, W), pooled(vols, W), lc, **dec(kw, W))
         elif op == "call":
             _, wl, meth, args, kw = ev
             getattr(W["wl"][wl], meth)(*dec(args, W), **dec(kw, W))
